@@ -5,7 +5,8 @@ spec/C17/Lifecycle.tla       M-spec: lock/channel protocol of distsys/mpcalctx.g
 spec/C17/MCLifecycle*.cfg    exhaustive design-level checks (deadlock check ON, liveness) + expected
                              counterexamples of the unrepaired variants (vacuity)
 spec/C17/MCLifecycleGen.tla  generator: state graph of "one harness command at a time, code quiescent"
-spec/C17/LifecycleObs.tla    P-spec: verdicts on the events recorded from the real code
+spec/C17/LifecycleObs.tla    P-spec: verdicts on the events recorded from the real code (LifecycleObs.cfg: non-stopping
+                             Judge used by this check; LifecycleObsStrict.cfg: the six invariants, for use by hand)
 spec/C17/LifecycleTrace.tla  M-level trace spec (conformance; a rejection is drift)
 harness/cmd/c17drv           drives the real MPCalContext with gates, instrumented resources, goroutine
                              states and the Go runtime's deadlock detector (no hooks in /repo)
@@ -172,7 +173,7 @@ def pfold(specdir, segs, timeout=1500):
     return verdicts, True, res.distinct, res.generated, None
 
 
-def mfold(specdir, segs, timeout=900, max_rounds=8):
+def mfold(specdir, segs, timeout=900, max_rounds=4):
     """Conformance of case segments to Lifecycle.tla (free internal steps => search). Returns
     (accepted, rejected segments, states, transitions, errors)."""
     acc, rej, st, tr, errs = 0, [], 0, 0, []
@@ -384,7 +385,10 @@ def run(chk):
     chk.notes["events_recorded"] = sum(len(s) for s in segs)
     chk.notes["deadlocks_reported_by_go_runtime"] = sum(1 for s in segs if s[-1].get("why") == "deadlock")
     for s in (segs[:1] + [x for x in segs if x[0].get("mode") == "free"][:2] + segs[-1:]):
-        chk.sample({"case": specs.get(id(s)), "events": s[1:40]})
+        sp = dict(specs.get(id(s)) or {})
+        if len(sp.get("script", [])) > 10:
+            sp["script"] = sp["script"][:8] + ["... (%d kinds in all)" % len(sp["script"])]
+        chk.sample({"case": sp, "events": s[1:40]})
     chk.assumptions += [
         "TLC/SANY/Json module",
         "goroutine states printed by runtime.Stack (chan send / chan receive / sync.Mutex.Lock) tell where a Stop call is parked",
